@@ -1,10 +1,10 @@
 package props
 
 import (
-	"runtime/debug"
 	"bytes"
 	"fmt"
 	"path"
+	"runtime/debug"
 	"sort"
 	"strings"
 
@@ -21,17 +21,17 @@ import (
 // Reed-Solomon data, judged by the independent reader.
 
 type c05Case struct {
-	Sizes  []int    `json:"sizes"`
-	Names  []string `json:"names"`
-	Slice  int      `json:"slice"`
-	Blocks int      `json:"blocks"`
-	G      int      `json:"g"`
-	Class  string   `json:"class,omitempty"`
-	MayRefuse bool  `json:"may_refuse,omitempty"`
-	NoSSSE3 bool    `json:"nossse3,omitempty"` // Create with the SSSE3 dispatch flag forced off
-	Prior   int     `json:"prior,omitempty"` // history inside one process: before this Create, 1..4 = a Create that fails (empty input file, non-ASCII name, missing input, too many slices), 5 = a different successful Create, 6 = a failing one then a successful one
-	Enc     *encProtoCase `json:"enc,omitempty"` // operation sequences on one exported Encoder object (see encproto.go)
-	Unreadable int  `json:"unreadable,omitempty"` // 1-based index of an input that does not exist (0 = all inputs readable); -k: input k is a directory
+	Sizes      []int         `json:"sizes"`
+	Names      []string      `json:"names"`
+	Slice      int           `json:"slice"`
+	Blocks     int           `json:"blocks"`
+	G          int           `json:"g"`
+	Class      string        `json:"class,omitempty"`
+	MayRefuse  bool          `json:"may_refuse,omitempty"`
+	NoSSSE3    bool          `json:"nossse3,omitempty"`    // Create with the SSSE3 dispatch flag forced off
+	Prior      int           `json:"prior,omitempty"`      // history inside one process: before this Create, 1..4 = a Create that fails (empty input file, non-ASCII name, missing input, too many slices), 5 = a different successful Create, 6 = a failing one then a successful one
+	Enc        *encProtoCase `json:"enc,omitempty"`        // operation sequences on one exported Encoder object (see encproto.go)
+	Unreadable int           `json:"unreadable,omitempty"` // 1-based index of an input that does not exist (0 = all inputs readable); -k: input k is a directory
 }
 
 func c05Names(n, variant int) []string {
